@@ -251,8 +251,9 @@ func (s *Store) Delete(ctx context.Context, target ocispec.Descriptor) error {
 }
 
 // heldBySurvivor reports whether node has a predecessor that is not queued for
-// deletion and links to node other than as its subject. A referrer does not keep
-// its subject alive, every other link does.
+// deletion and lists node other than as its subject (as one of its manifests,
+// layers, blobs or as its config). A referrer does not keep its subject alive,
+// every other link does.
 func (s *Store) heldBySurvivor(ctx context.Context, node ocispec.Descriptor, queued set.Set[descriptor.Descriptor]) (bool, error) {
 	predecessors, err := s.graph.Predecessors(ctx, node)
 	if err != nil {
@@ -262,11 +263,25 @@ func (s *Store) heldBySurvivor(ctx context.Context, node ocispec.Descriptor, que
 		if queued.Contains(descriptor.FromOCI(predecessor)) {
 			continue
 		}
+		successors, err := content.Successors(ctx, s.storage, predecessor)
+		if err != nil {
+			return false, err
+		}
+		links := 0
+		for _, successor := range successors {
+			if content.Equal(successor, node) {
+				links++
+			}
+		}
 		subject, err := manifestutil.Subject(ctx, s.storage, predecessor)
 		if err != nil {
 			return false, err
 		}
-		if subject == nil || !content.Equal(*subject, node) {
+		if subject != nil && content.Equal(*subject, node) {
+			// content.Successors reports the subject among the successors
+			links--
+		}
+		if links > 0 {
 			return true, nil
 		}
 	}
